@@ -1,5 +1,6 @@
 use time::RtmpTimestamp;
 
+#[cfg_attr(feature = "verif", derive(Clone))]
 #[derive(PartialEq, Debug)]
 pub enum ChunkHeaderFormat {
     Full,                            // Format 0
@@ -8,6 +9,7 @@ pub enum ChunkHeaderFormat {
     Empty,                           // Format 3
 }
 
+#[cfg_attr(feature = "verif", derive(Clone))]
 #[derive(Debug)]
 pub struct ChunkHeader {
     pub chunk_stream_id: u32,
